@@ -243,6 +243,9 @@ class Interp(object):
         if not lin.t:
             v = lin.c % (1 << bits)
             return IntV(bits, Lin.const(v - (1 << bits) if v >= H else v), 's')
+        if lo >= 0 and hi < (1 << bits):
+            # outside the signed range but a valid unsigned pattern (e.g. 0 - x for x = INT_MIN)
+            return IntV(bits, lin, 'u')
         a = ('smod', lin, bits)
         if a not in st.rng:
             st.rng[a] = (-H, H - 1)
@@ -736,7 +739,9 @@ class Interp(object):
                     if not st.assume_ge0(d - 1):
                         return False
             elif hi == 0:
-                if st.is_eq0(d) is not True:
+                if (a, off, L) in st.flags.get('weaklinks', ()):
+                    pass            # a NUL inside the text is possible: nothing follows about the position
+                elif st.is_eq0(d) is not True:
                     if not st.assume_eq0(d):
                         return False
             else:
@@ -1695,6 +1700,9 @@ class Interp(object):
             H = M >> 1
             if lo >= -H and hi < H:
                 return IntV(bits, lin, 's')
+        if lo > -INF and hi < INF and (lo // M) == (hi // M):
+            # the whole range lies in one 2^bits page: truncation subtracts a known multiple
+            return IntV(bits, lin - (lo // M) * M, 'u')
         st.ev('narrow', inst, a, (lo, hi), bits)
         src = self.as_u(st, a) if a.kind == 'u' else a.lin
         at = ('mod', src, bits)
@@ -1807,6 +1815,13 @@ class Interp(object):
             return self.opaque_op(st, 'urem', bits, la, lb, rng)
         if op in ('sdiv', 'srem'):
             la, lb = self.slin(st, a), self.slin(st, b)
+            if la is not None and lb is not None and lb.t:
+                (alo, ahi), (blo, bhi) = st.range(la), st.range(lb)
+                if alo >= 0 and blo >= 1:
+                    # both operands non-negative: same as the unsigned operation
+                    if op == 'sdiv':
+                        return self.opaque_op(st, 'udiv', bits, la, lb, (alo // max(bhi, 1) if bhi < INF else 0, ahi // blo if ahi < INF else M - 1))
+                    return self.opaque_op(st, 'urem', bits, la, lb, (0, min(ahi, bhi - 1 if bhi < INF else M - 1)))
             if la is not None and lb is not None and not lb.t and lb.c > 0:
                 if not la.t:
                     q = abs(la.c) // lb.c
